@@ -207,6 +207,10 @@ def run(tier):
         sum(1 for x in ref_c if frag_to_ref_lost(x, "S>C"))
     ref_s = [x for x in ref_s if not ref_final_lost(x) and not frag_to_ref_lost(x, "C>S")]
     ref_c = [x for x in ref_c if not frag_to_ref_lost(x, "S>C")]
+    # every second reference schedule is delivered the way the reference packs it: the operations are applied per
+    # record, the surviving records of a datagram travel as one datagram again (several records per datagram at rustrtc)
+    ref_s = [dict(x, repack=(i % 2 == 1)) for i, x in enumerate(ref_s)]
+    ref_c = [dict(x, repack=(i % 2 == 1)) for i, x in enumerate(ref_c)]
     ref_ids = {x["id"] for x in ref_s + ref_c}
 
     scenarios = singles + pairs + ref_s + ref_c
